@@ -72,7 +72,9 @@ class Cluster:
 
 def make_client(world, use_vpc, **kw):
     from pymemcache.client.ext.aws_ec_client import AWSElastiCacheHashClient
-    return AWSElastiCacheHashClient(CFG_HOST + ":11211", socket_module=cs.FakeSocketModule(world), use_vpc=use_vpc,
+    if use_vpc != "omit":        # "omit": the constructor is not told; the documented default (True: IP addresses) applies
+        kw = dict(kw, use_vpc=use_vpc)
+    return AWSElastiCacheHashClient(CFG_HOST + ":11211", socket_module=cs.FakeSocketModule(world),
                                     default_noreply=False, connect_timeout=cs.CONNECT_TIMEOUT, timeout=cs.IO_TIMEOUT, **kw)
 
 
@@ -465,7 +467,7 @@ def search(ctx):
                 fixed.append((vpc, [], [("adv", nodes), ("refuse", nodes[victim]), ("traffic",), ("adv", rest), ("accept", nodes[victim]), ("tick", 61), ("traffic",),
                                         ("tick", 200), ("traffic",), ("adv", rest)]))
     # use_vpc is documented as a bool; 1 and 0 are the same values to Python (other objects are outside its domain: the code indexes with int(use_vpc))
-    for vpc in (1, 0):
+    for vpc in (1, 0, "omit"):
         fixed.append((vpc, [], [("adv", UNIVERSE[:3]), ("adv", UNIVERSE[1:4]), ("traffic",)]))
     # the version number in the reply is the endpoint's business: whatever it is (more digits than last time, lower than last time),
     # the advertised list is what counts
